@@ -58,8 +58,8 @@ Proof.
     2: { assert (E0 : cstep (hc h) (i, nc) = hc h) by (unfold cstep; rewrite Hi; reflexivity). rewrite E0. cbn [hinv hhist]. split; auto. }
     destruct (cstep_kind (hc h) i nc t HC Hi) as (l' & m' & t' & Hstep & Hk). rewrite Hstep. cbn [cths].
     assert (Hil : i < length (hinv h)) by (rewrite Hlen; apply nth_error_Some; congruence).
-    destruct Hk as [Ec El Em Ec' Ep' Eh' Es' | cl Ec Hret El Em Ec' Eb' Elog | cl Ec Hret El Ec' Ep' Eh' Es' Em
-                   | cl md Ec Hret Hn El Em Ec' Ep' Eh' Es' Hw | cl md Ec Hret Hn El Em Ec' Ep' Ef' Eh' Es'].
+    destruct Hk as [Ec El Em Ec' Ep' Eh' Es' Elg | cl Ec Hret El Em Ec' Eb' Elog | cl Ec Hret El Ec' Ep' Eh' Es' Em Elg
+                   | cl md Ec Hret Hn El Em Ec' Ep' Eh' Es' Hw Elg | cl md Ec Hret Hn El Em Ec' Ep' Ef' Eh' Es' Elg].
     + (* invocation *)
       rewrite Ec. cbn [hinv hhist]. split; auto.
       intros j y Hj Hc Hph. rewrite (nth_error_upd _ i t t' j Hi) in Hj. destruct (Nat.eqb_spec j i) as [->|Hne].
